@@ -51,6 +51,9 @@ package forkexec
 //@   requires 0 <= p[0] && p[0] < 2147483648 && 0 <= p[1] && p[1] < 2147483648 && p[0] != p[1]
 //@   requires r.ExecFile < 2147483648 && len(r.Files) < 1048576
 //@   requires len(argv) >= 1 && len(env) >= 1
+//@   requires #int forall j int, k int :: 0 <= j && j < k && k < len(r.Mounts) ==> r.Mounts[j].Target != r.Mounts[k].Target
+//@   requires #int forall k int :: 0 <= k && k < len(r.Mounts) ==> r.Mounts[k].Target != nil && r.Mounts[k].Flags & 32 == 0 && r.Mounts[k].Target != elemaddr(slash, 0)
+//@   requires #int pivotRoot != nil ==> forall k int :: 0 <= k && k < len(r.Mounts) ==> r.Mounts[k].Target != pivotRoot
 //@   assume #int forall j int :: K.fdt[j] != 0 ==> K.clo[j]
 //@   assume K.fdt[p[1]] != 0
 //@   assume #int forall k int :: 0 <= k && k < len(r.Files) ==> r.Files[k] != p[0]
@@ -114,7 +117,7 @@ package forkexec
 //@   loop 6: invariant #bv session_ok()
 //@   loop 6: invariant #bv fs_ok()
 //@   loop 6: invariant #bv names_ok()
-//@   loop 7: invariant #bv exec_state_ok()
+//@   loop 7: invariant #bv exec_state_ok() && (K.last_trap == 59 || K.last_trap == 322)
 //@   callsite syscall.RawSyscall6 when trap == 322: assert @C04 #bv caps_ok() && nnp_ok() && filter_ok() && creds_ok() && session_ok() && names_ok()
 //@   callsite syscall.RawSyscall when trap == 59: assert @C04 #bv caps_ok() && nnp_ok() && filter_ok() && creds_ok() && session_ok() && names_ok()
 //@   callsite syscall.RawSyscall6 when trap == 322: assert @C05 #bv fs_ok()
@@ -124,6 +127,9 @@ package forkexec
 //@   callsite syscall.RawSyscall6 when trap == 322: assert @C07 #bv sync_ok()
 //@   callsite syscall.RawSyscall when trap == 59: assert @C07 #bv sync_ok()
 //@   callsite syscall.RawSyscall6 when trap == 322: assert @C06 @C13 #bv a1 == execFile && a2 == addr(elemaddr(empty, 0)) && a5 == 4096
+//@   callsite childExitError: assert @C07 #bv loc_ok(int(loc), K.last_trap)
+//@   callsite childExitErrorWithIndex: assert @C07 #bv loc_ok(int(loc), K.last_trap)
+//@   callsite childExitErrorWithIndex: assert @C07 #int idx == i
 //@   callsite syscall.RawSyscall when trap == 317: assert @C03 #bv old(r.Ptrace) ==> K.traceme && K.stopped_self
 //@   callsite syscall.RawSyscall when trap == 317: assert @C04 #bv a1 == 1 && a2 == 1 && a3 == addr(old(r.Seccomp)) && old(r.Seccomp) != nil
 //@   callsite syscall.RawSyscall when trap == 272: assert @C04 #bv old(r.SyncFunc) != nil ==> K.sync_stage == 2
@@ -139,6 +145,10 @@ package forkexec
 //@ macro session_ok() = K.sid_new && (old(r.CTTY) ==> K.ctty)
 //@ macro names_ok() = (workdir != nil ==> K.cwd == addr(workdir)) && (hostname != nil ==> K.host_issued && K.host == addr(hostname) && K.hostlen == uintptr(len(old(r.HostName)))) && (domainname != nil ==> K.domain_issued && K.domain == addr(domainname) && K.domainlen == uintptr(len(old(r.DomainName))))
 //@ macro fs_ok() = pivotRoot != nil ==> K.pivoted && K.pivot_new == addr(pivotRoot) && K.old_detached && K.old_removed && K.remount_done[addr(elemaddr(slash, 0))] && K.remount[addr(elemaddr(slash, 0))] & 4129 == 4129
+// (not claimed yet: the quantified loop invariant below times out in both arithmetic modes; kept for later)
+// mount entry k was mounted with exactly its parameters; a bind-read-only entry was remounted with at
+// least its own flags plus MS_REMOUNT (32). bindRo = MS_BIND|MS_RDONLY = 4097.
+//@ macro mount_entry_ok(k) = K.mnt_done[addr(old(r.Mounts[k].Target))] && K.mnt_src[addr(old(r.Mounts[k].Target))] == addr(old(r.Mounts[k].Source)) && K.mnt_type[addr(old(r.Mounts[k].Target))] == addr(old(r.Mounts[k].FsType)) && K.mnt_flags[addr(old(r.Mounts[k].Target))] == old(r.Mounts[k].Flags) && K.mnt_data[addr(old(r.Mounts[k].Target))] == addr(old(r.Mounts[k].Data)) && (old(r.Mounts[k].Flags) & 4097 == 4097 ==> K.remount_done[addr(old(r.Mounts[k].Target))] && K.remount[addr(old(r.Mounts[k].Target))] & (old(r.Mounts[k].Flags) | 32) == old(r.Mounts[k].Flags) | 32)
 //@ macro caps_ok() = (old(r.Credential) != nil || old(r.DropCaps)) ==> K.caps_empty && K.secbits & 3 == 3
 //@ macro nnp_ok() = (old(r.NoNewPrivs) || old(r.Seccomp) != nil) ==> K.nnp
 //@ macro filter_ok() = (old(r.Seccomp) != nil ==> K.filter == addr(old(r.Seccomp)) && K.filter_flags == 1) && (old(r.Seccomp) == nil ==> K.filter == 0)
@@ -155,3 +165,7 @@ package forkexec
 //@ global pkg/forkexec._AT_FDCWD props C05: invariant _AT_FDCWD == -100
 //@ global pkg/forkexec.dropCapHeader props C04: invariant dropCapHeader.Version == 537396514 && dropCapHeader.Pid == 0
 //@ global pkg/forkexec.dropCapData props C04: invariant dropCapData.Effective == 0 && dropCapData.Permitted == 0 && dropCapData.Inheritable == 0
+
+// Bit-level facts used by the int-mode proof of the mount loop (proved in bv mode, exported to int mode).
+//@ lemma bits_or_absorb arith bv export props C05: forall a uintptr, x uintptr :: (a | x) & a == a
+//@ lemma bits_remount_set arith bv export props C05: forall a uintptr, x uintptr :: ((a | 32) | x) & 32 != 0
